@@ -252,6 +252,8 @@ func C11(r *vlib.Run) {
 			add(&c11Case{name: "ok/one-file", gen: be, popts: []string{"a=b"}, script: []string{`{"mode":"ok","files":[{"name":"out/from_plugin.txt","content":"hello\nworld"}]}`}, files: map[string]string{"out/from_plugin.txt": "hello\nworld"}})
 			add(&c11Case{name: "ok/files+patch", gen: be, popts: []string{""}, script: []string{`{"mode":"ok","files":[{"name":"out/p.txt","content":"A\n` + ip + `\nB"},{"insertion_point":"spot","content":"PATCH"},{"name":"out/deep/dir/q.txt","content":"q"}]}`}, files: map[string]string{"out/p.txt": "A\nPATCH\nB", "out/deep/dir/q.txt": "q"}})
 			add(&c11Case{name: "ok/patch-by-name", gen: be, popts: []string{""}, script: []string{`{"mode":"ok","files":[{"name":"out/p.txt","content":"[` + ip + `]"},{"name":"out/other.txt","content":"o"},{"name":"out/p.txt","insertion_point":"spot","content":"late"}]}`}, files: map[string]string{"out/p.txt": "[late]", "out/other.txt": "o"}})
+			add(&c11Case{name: "ok/nameless-patch-after-named-patch", gen: be, popts: []string{""}, script: []string{`{"mode":"ok","files":[{"name":"out/a.txt","content":"[` + ip + `][` + plugin.InsertionPoint("two") + `]"},{"name":"out/b.txt","content":"<` + plugin.InsertionPoint("two") + `>"},{"name":"out/a.txt","insertion_point":"spot","content":"N"},{"insertion_point":"two","content":"U"}]}`}, files: map[string]string{"out/a.txt": "[N][U]", "out/b.txt": "<>"}})
+			add(&c11Case{name: "ok/patch-for-a-name-not-fed-before", gen: be, popts: []string{""}, script: []string{`{"mode":"ok","files":[{"name":"out/first.txt","content":"x"},{"name":"out/extra.txt","insertion_point":"spot","content":"EXTRA"}]}`}, files: map[string]string{"out/first.txt": "x", "out/extra.txt": "EXTRA"}})
 			add(&c11Case{name: "ok/warnings", gen: be, popts: []string{""}, script: []string{`{"mode":"ok","warnings":["warning-one-zz","warning-two-zz"],"stderr":"stderr-text-zz"}`}, warn: []string{"warning-one-zz", "warning-two-zz", "stderr-text-zz"}})
 			add(&c11Case{name: "ok/two-plugins", gen: be, popts: []string{"slot=first,x=1", "slot=second,y=2"}, script: []string{`{"mode":"ok","files":[{"name":"out/one.txt","content":"1"}]}`, `{"mode":"ok","files":[{"name":"out/two.txt","content":"2"}]}`}, files: map[string]string{"out/one.txt": "1", "out/two.txt": "2"}})
 			add(&c11Case{name: "ok/three-plugins-middle-one-without-parameters", gen: be, popts: []string{"alpha=1,beta,gamma=x=y", "", "last=1"}, names: []string{"p1", "p2", "p3"}, script: []string{`{"mode":"ok"}`, `{"mode":"ok"}`, `{"mode":"ok"}`}})
